@@ -115,7 +115,48 @@ CLAIMED = {
 NOT_YET = "check not built yet (work in progress; see DESIGN.md section 10 order of work)"
 
 
+# what is REGENERATED from the source on every run and proved equal to the model (appended to the level text)
+REGENERATED = {
+    "C01": " The whole body of integral_matching_reference_stretch (argument checks, the three ways of fixing points, reference integrals, call of the "
+           "window loop, defaults) is REGENERATED from match.py as a term of the glue language (Gen/MatchGlue.v) and proved equal to the model's match_ref "
+           "(C01_glue_match_ref, C01_glue_match_defaults).",
+    "C03": " The window loop of _interval_integral_matching_stretch (zip over targets and consecutive fixed points, end+1, in-place slice assignment) is "
+           "REGENERATED (Gen/MatchGlue.v) and proved equal to the model's interval_match (C03_glue_interval_loop).",
+    "C04": " The rfa() bodies of PiecewiseConstantRFA / FunctionRFA and the oversampling helpers are REGENERATED (Gen/RfaGlue.v) and proved equal to the model.",
+    "C05": " The strategy constructors' window computations are REGENERATED (Gen/Kernels.v) and proved equal to the model's window functions; the rfa() "
+           "bodies of the two fixed-window strategies (nested write loops over IntervalArrays) are REGENERATED (Gen/RfaGlue.v) and proved equal to the "
+           "write-loop model that the link theorems refine to the closed forms.",
+    "C06": " The generic branch of get_adaptive_transition_points is REGENERATED (Gen/Kernels.v) and proved equal to adaptive_pair; the rfa() bodies of the "
+           "two adaptive strategies are REGENERATED (Gen/RfaGlue.v) and proved equal to the write-loop model.",
+    "C08": " Every method body of class Weaver is REGENERATED from weaver.py as a term of the glue language (Gen/WeaverGlue.v) and running it is proved equal to "
+           "one step of the model for every operation (C09_glue_generated; domain corollary C08_glue_domain); the per-method write footprint is REGENERATED "
+           "too (Gen/WeaverFootprint.v) and the reference is assigned iff the working series is.",
+    "C09": " Every method body of class Weaver (incl. the constructor and the getters, parameter lists and defaults, the module's imports) is REGENERATED from "
+           "weaver.py (Gen/WeaverGlue.v) and running it under the interpreter of Model/GlueSem.v is proved equal to the model's step / init / queries for every "
+           "operation, state and argument — also the partial state an exception leaves behind (C09_glue_generated, C09_glue_init, C09_glue_getters, "
+           "C09_glue_imports); footprint theorems over Gen/WeaverFootprint.v.",
+    "C10": " The dispatcher find_closest_element_indices_to_values is REGENERATED (Gen/UtilsGlue.v) and proved equal to the model's find_indices.",
+    "C11": " The bodies of process.truncate, Weaver.slice_by_index / slice_by_value / truncate_by_* are REGENERATED (Gen/ProcessGlue.v, Gen/WeaverGlue.v) and proved "
+           "equal to the model (C11_glue_truncate, C11_glue_slice_*).",
+    "C12": " The body of process.repeat (tiling, the loop over the copies, the in-place slice update with the junction gap) is REGENERATED (Gen/ProcessGlue.v) and "
+           "proved equal to the model's repeat_series (C12_glue_repeat).",
+    "C13": " The dispatcher process.interpolate is REGENERATED (Gen/ProcessGlue.v) and proved to select the model's linear / constant interpolation and to reject "
+           "every other method name except 'cubic' / 'spline' (C13_glue_interpolate).",
+    "C14": " The bodies of process.trend (the per-sample loop, both branches of `normalized`) and process.normalize are REGENERATED (Gen/ProcessGlue.v) and proved equal "
+           "to the model (C14_glue_trend, C14_glue_normalize).",
+    "C17": " The bodies of append_one_sample, integral and the two integration rules are REGENERATED (Gen/UtilsGlue.v) and proved equal to the model.",
+    "C18": " The name dispatch of load_dataset and the data-home resolution are REGENERATED from datasets/_base.py (Gen/Dispatch.v) and proved equal to the model.",
+    "C19": " The loader's guards (download / refuse / read cache), the retry give-up test and counter update, the checksum rejection, and the order and scoping of "
+           "its effects (fresh TemporaryDirectory inside the dataset directory; download, parse source, pickle target and rename source all inside it; rename "
+           "to data_home/folder/file as the only write to the slot) are REGENERATED from datasets/_base.py (Gen/CacheSkeleton.v) and proved to be what the "
+           "small-step model is built from (C19_generated_*).",
+}
+
+
 def main():
+    for k, extra in REGENERATED.items():
+        text, note, tech = CLAIMED[k]
+        CLAIMED[k] = (text + extra, note, tech)
     props = [json.loads(l) for l in open(os.path.join(VERIF, "properties.jsonl"))]
     checks = []
     for p in props:
